@@ -337,7 +337,7 @@ struct Runner {
                 if (!sel(i, j)) continue;
                     const MEdge *e = mo.find(i, j);
                     if (e) {
-                        if (!e->known) continue;
+                        if (!e->known || e->copies > 1) continue; // C16 says nothing about the label of a pair while it is duplicated
                         GS_OBS("getEdgeLabel", LABEL, {
                             L want = Alpha<L>::get((int)e->val);
                             L got = gr.getEdgeLabel(i, j);
@@ -366,7 +366,7 @@ struct Runner {
         if constexpr (kind == MULTI) {
             size_t total = 0;
             for (auto &kv : mo.e) total += (size_t)kv.second.copies * (size_t)kv.second.val;
-            if (mo.allKnown()) {
+            if (mo.allKnown() && !dups) { // totals are specified for duplicate-free graphs (C04) and after removeDuplicateEdges (C16)
                 GS_OBS("getTotalEdgeNumber", VALUE, {
                     size_t t = gr.getTotalEdgeNumber();
                     dg.u64(t);
@@ -377,7 +377,7 @@ struct Runner {
                 for (unsigned j = 0; j < n; ++j) {
                 if (!sel(i, j)) continue;
                     const MEdge *e = mo.find(i, j);
-                    if (e && !e->known) continue;
+                    if (e && (!e->known || e->copies > 1)) continue;
                     GS_OBS("getEdgeMultiplicity", VALUE, {
                         unsigned mu = gr.getEdgeMultiplicity(i, j);
                         dg.u64(mu);
@@ -389,7 +389,7 @@ struct Runner {
         if constexpr (kind == WEIGHTED) {
             long double total = 0, mag = 0;
             for (auto &kv : mo.e) { total += (long double)kv.second.copies * (long double)kv.second.val; mag += std::fabs((long double)kv.second.val); }
-            if (mo.allKnown()) {
+            if (mo.allKnown() && !dups) {
                 GS_OBS("getTotalWeight", VALUE, {
                     long double t = gr.getTotalWeight();
                     if (exactW) {
@@ -409,7 +409,7 @@ struct Runner {
                     for (unsigned j = 0; j < n; ++j) {
                 if (!sel(i, j)) continue;
                         const MEdge *e = mo.find(i, j);
-                        if (e && !e->known) continue;
+                        if (e && (!e->known || e->copies > 1)) continue;
                         dg.dbl(wm[i][j]);
                         double want = e ? e->val : 0.0;
                         if (wm[i][j] != want) ok = false;
@@ -422,7 +422,7 @@ struct Runner {
                 if (!sel(i, j)) continue;
                     const MEdge *e = mo.find(i, j);
                     if (e) {
-                        if (!e->known) continue;
+                        if (!e->known || e->copies > 1) continue;
                         GS_OBS("getEdgeWeight", VALUE, {
                             double w = gr.getEdgeWeight(i, j);
                             if (w != e->val) mismatch(VALUE, "weight_of_present_pair", "(" + std::to_string(i) + "," + std::to_string(j) + ") got " + std::to_string(w) + " want " + std::to_string(e->val));
